@@ -595,26 +595,46 @@ def reference_trajectory(mem: Member, tol: float, max_loops: int):
     return out, status
 
 
-def learner_trajectory(mem: Member, tol: float, n_distinct: int, cap: int):
+def learner_trajectory(mem: Member, tol: float, n_distinct: int, cap: int, snap: bool = False):
     """Feed the learner one point at a time (the repo's run_integrator_learner) and record,
     after every tell, (evaluations, near-duplicate evaluations so far, igral, err).
-    A near-duplicate is an abscissa within 4 ulp of one already evaluated: the learner
+    A near-duplicate is an abscissa within 6 ulp (at the magnitude of the end points of the
+    interval it was computed for) of one already evaluated: the learner
     recomputes interval end points as (a+b)/2 -+ (b-a)/2, which can differ from the stored
-    end point in the last place; algorithm_4 re-uses the parent's values there."""
+    end point in the last place; algorithm_4 re-uses the parent's values there.
+    snap=True answers a near-duplicate abscissa with the value already recorded for its
+    neighbour (what algorithm_4's re-use by index amounts to): the run then shows what the
+    learner computes when the 1-ulp shift of the abscissa cannot change the integrand."""
     import bisect
+    vals: dict[float, float] = {}
     il, _ = modules()
     L = il.IntegratorLearner(mem.f, bounds=(mem.a, mem.b), tol=tol)
     xs_sorted: list[float] = []
     traj, dups, n, status = [], 0, 0, "ok"
+    L.c08_dup_pairs = []          # (evaluation number, abscissa asked, abscissa already evaluated)
     try:
         while n - dups <= n_distinct and n < cap:
             pts, _ = L.ask(1)
             for x in pts:
                 i = bisect.bisect_left(xs_sorted, x)
-                if (i < len(xs_sorted) and _near(xs_sorted[i], x)) or (i > 0 and _near(xs_sorted[i - 1], x)):
+                old = None
+                # rounding of (a+b)/2 + (b-a) xi/2 is a few ulps at the magnitude of the interval's end
+                # points (not of x: the left end of (0.022, 0.49) is recomputed at magnitude 0.25)
+                mag = min((max(abs(iv.a), abs(iv.b)) for iv in L.x_mapping[x]), default=abs(x))
+                tolx = 6 * math.ulp(max(mag, abs(x), 5e-324))
+                if i < len(xs_sorted) and abs(xs_sorted[i] - x) <= tolx:
+                    old = xs_sorted[i]
+                elif i > 0 and abs(xs_sorted[i - 1] - x) <= tolx:
+                    old = xs_sorted[i - 1]
+                if old is not None:
                     dups += 1
+                    L.c08_dup_pairs.append((n + 1, float(x), float(old)))
                 xs_sorted.insert(i, x)
-                L.tell(x, mem.f(x))
+                y = vals[old] if (snap and old is not None) else mem.f(x)
+                vals[x] = y
+                if old is not None:
+                    L.c08_dup_pairs[-1] += (float(mem.f(x)), float(vals[old]))
+                L.tell(x, y)
                 n += 1
                 ig = float(L.igral) if L.approximating_intervals else math.nan
                 traj.append((n, dups, ig, float(L.err), bool(L.done())))
